@@ -143,8 +143,8 @@ func recC07(c *ctx) {
 	// GeneratePrivateKey(reader): SHA-512/256 of the 32 bytes read; GenerateKey adds the public key
 	for i := 0; i < 3; i++ {
 		ent := r.Bytes(32)
-		pk, sk, err := x25519.GenerateKey(bytes.NewReader(ent))
-		sk2, err2 := x25519.GeneratePrivateKey(bytes.NewReader(ent))
+		pk, sk, err := x25519.GenerateKey(r.Entropy(ent))
+		sk2, err2 := x25519.GeneratePrivateKey(r.Entropy(ent))
 		d := sha512.Sum512_256(ent)
 		ok := err == nil && err2 == nil && bytes.Equal(sk[:], d[:]) && bytes.Equal(sk2[:], sk[:]) && bytes.Equal((*sk.Public())[:], pk[:])
 		c.w.Emit(vt.Ev{"op": "check", "cfg": c.cfg, "what": "GenerateKey = SHA-512/256(entropy), Public()", "ok": ok})
